@@ -126,6 +126,15 @@ def small_programs():  # noqa: ANN201
         blk["exit"] = {"kind": exit_kind}
         blk["catch"] = "all-but-cancel"
         yield [blk, {"op": "gate", "label": "after.handled"}]
+    # ... or for a task whose cleanup fails when the failing scope aborts it (`except CancelledError: raise CleanupError`): the outside
+    # request arrives around that failure (also between the task's last step and the group's reaction to it)
+    for exit_kind in ("raise-exc", "raise-base", "raise-group"):
+        for children in (["cleanup-fails"], ["cleanup-fails", "blocked"], ["slow-cleanup", "cleanup-fails"]):
+            uid = itertools.count(1)
+            blk = make_block("out", [], children, [], uid)
+            blk["exit"] = {"kind": exit_kind}
+            blk["catch"] = "all-but-cancel"
+            yield [blk, {"op": "gate", "label": "after.handled"}]
     # deterministic witnesses of known finding D38 / D38b: a child whose cleanup fails inside a nested scope, a blocked child outside
     uid = itertools.count(1)
     yield [make_block("out", [], ["blocked"], [make_block("in", [], ["cleanup-fails"], [], uid)], uid)]
